@@ -98,7 +98,7 @@ def materialise(world, root):
 
 def run_execution(spec, repo_src, shm):
     os.makedirs(shm, exist_ok=True)
-    root = os.path.realpath(os.path.join(shm, f"x{os.getpid()}"))
+    root = os.path.realpath(os.path.join(shm, f"x{os.getpid():08d}"))  # fixed length: no size-class effects on the heap
     if os.path.exists(root):
         shutil.rmtree(root)
     os.makedirs(root)
